@@ -170,24 +170,105 @@ def _of_int(t):
     return None
 
 
+def _as_int_term(t):
+    """Int term equal to the Real term t when t is syntactically integer valued (sums / integer multiples of to_real(...)), else None"""
+    if z3.is_int(t):
+        return t
+    if z3.is_app_of(t, z3.Z3_OP_TO_REAL):
+        return t.arg(0)
+    if z3.is_rational_value(t):
+        return z3.IntVal(t.numerator_as_long()) if t.denominator_as_long() == 1 else None
+    if z3.is_app_of(t, z3.Z3_OP_ADD) or z3.is_app_of(t, z3.Z3_OP_SUB):
+        parts = [_as_int_term(c) for c in t.children()]
+        if any(p is None for p in parts):
+            return None
+        r = parts[0]
+        for p in parts[1:]:
+            r = r + p if z3.is_app_of(t, z3.Z3_OP_ADD) else r - p
+        return r
+    if z3.is_app_of(t, z3.Z3_OP_UMINUS):
+        p = _as_int_term(t.arg(0))
+        return None if p is None else -p
+    if z3.is_app_of(t, z3.Z3_OP_MUL):
+        parts = [_as_int_term(c) for c in t.children()]
+        if any(p is None for p in parts):
+            return None
+        r = parts[0]
+        for p in parts[1:]:
+            r = r * p
+        return r
+    return None
+
+
+def _denominators(t, acc, depth=0):
+    if depth > 30:
+        return
+    if z3.is_rational_value(t):
+        acc.add(t.denominator_as_long())
+        return
+    if z3.is_app(t) and t.decl().kind() in (z3.Z3_OP_ADD, z3.Z3_OP_SUB, z3.Z3_OP_MUL, z3.Z3_OP_UMINUS, z3.Z3_OP_DIV):
+        if z3.is_app_of(t, z3.Z3_OP_DIV) and z3.is_rational_value(t.arg(1)) and t.arg(1).denominator_as_long() == 1 and t.arg(1).numerator_as_long() > 0:
+            acc.add(t.arg(1).numerator_as_long())
+            _denominators(t.arg(0), acc, depth + 1)
+            return
+        for c in t.children():
+            _denominators(c, acc, depth + 1)
+
+
+def _int_over_literal(t):
+    """(a, d) with t == to_real(a) / d, a an Int term and d a positive integer literal (t may have been normalised by the simplifier
+    into sums of rational multiples)"""
+    import math
+    dens = set()
+    _denominators(t, dens)
+    dens.discard(1)
+    if not dens or len(dens) > 3:
+        return None
+    L = 1
+    for d in dens:
+        L = L * d // math.gcd(L, d)
+    if L > 10 ** 6:
+        return None
+    a = _as_int_term(z3.simplify(t * L))
+    if a is None:
+        return None
+    return z3.simplify(a), L
+
+
 def trunc_int(t):
     """int(x) for a Real term: truncation toward zero."""
     if z3.is_int(t):
         return t
     if _of_int(t) is not None:
         return _of_int(t)
+    q = _int_over_literal(t)
+    if q is not None:
+        a, d = q
+        return z3.If(a >= 0, a / d, -((-a) / d))
     return z3.If(t >= 0, z3.ToInt(t), -z3.ToInt(-t))
 
 
 def ceil_real(t):
     if z3.is_int(t):
         return z3.ToReal(t)
+    if _of_int(t) is not None:
+        return t
+    q = _int_over_literal(t)
+    if q is not None:
+        a, d = q
+        return z3.ToReal(-((-a) / d))
     return z3.ToReal(-z3.ToInt(-t))
 
 
 def floor_real(t):
     if z3.is_int(t):
         return z3.ToReal(t)
+    if _of_int(t) is not None:
+        return t
+    q = _int_over_literal(t)
+    if q is not None:
+        a, d = q
+        return z3.ToReal(a / d)           # integer division by a positive literal is the floor
     return z3.ToReal(z3.ToInt(t))
 
 
